@@ -35,6 +35,11 @@ type FieldDecl struct {
 	Props    []string
 	Pointee  bool // the declaration covers the object the pointer field points to (T.f*)
 	ptSorts  []Sort
+	// MapContent: "T.f[]" — the declaration covers the entries of the map the field holds:
+	// every insert/delete/clear on a map value loaded from the field, and every escape of that
+	// value (argument, store, capture), occurs in a listed function. Scan only; it carries no
+	// frame (kept in Engine.MapDecls, apart from the declarations the frame logic uses).
+	MapContent bool
 }
 
 func (e *Engine) parseFieldDecls() error {
@@ -53,6 +58,8 @@ func (e *Engine) parseFieldDecls() error {
 		}
 		pointee := strings.HasSuffix(head[0], "*")
 		head[0] = strings.TrimSuffix(head[0], "*")
+		mapContent := strings.HasSuffix(head[0], "[]")
+		head[0] = strings.TrimSuffix(head[0], "[]")
 		tf := strings.SplitN(head[0], ".", 2)
 		if len(tf) != 2 {
 			return fmt.Errorf("%s:%d: field T.f writers ...", d.File, d.Line)
@@ -79,6 +86,14 @@ func (e *Engine) parseFieldDecls() error {
 		}
 		if fd.idx < 0 {
 			return fmt.Errorf("%s:%d: no field %s in %s", d.File, d.Line, fd.Field, fd.Struct)
+		}
+		if mapContent {
+			if _, ok := st.Field(fd.idx).Type().Underlying().(*types.Map); !ok {
+				return fmt.Errorf("%s:%d: %s.%s is not a map field", d.File, d.Line, fd.Struct, fd.Field)
+			}
+			fd.MapContent = true
+			e.MapDecls = append(e.MapDecls, fd)
+			continue
 		}
 		fd.off = e.fieldOff(st, fd.idx)
 		fd.size = e.size(st.Field(fd.idx).Type())
@@ -185,7 +200,79 @@ func containsNamed(t types.Type, n *types.Named, depth int) bool {
 	return false
 }
 
+// mapContentWrite: a use of the map held by the field that changes its entries or lets the
+// map value escape; "" if every use only reads (lookup, range, len).
+func (e *Engine) mapContentWrite(fa *ssa.FieldAddr) string {
+	for _, r := range *fa.Referrers() {
+		switch u := r.(type) {
+		case *ssa.DebugRef:
+		case *ssa.Store:
+			// assigning the map itself is governed by the plain declaration of the field
+			if u.Val == ssa.Value(fa) {
+				return e.Fset.Position(u.Pos()).String()
+			}
+		case *ssa.UnOp:
+			if u.Op != token.MUL {
+				return e.Fset.Position(u.Pos()).String()
+			}
+			for _, vr := range *u.Referrers() {
+				switch c := vr.(type) {
+				case *ssa.DebugRef, *ssa.Lookup, *ssa.Range:
+				case *ssa.BinOp:
+				case *ssa.MapUpdate:
+					return e.Fset.Position(c.Pos()).String()
+				case *ssa.Call:
+					if b, ok := c.Call.Value.(*ssa.Builtin); ok && b.Name() == "len" {
+						continue
+					}
+					return e.Fset.Position(c.Pos()).String()
+				default:
+					return e.Fset.Position(vr.Pos()).String()
+				}
+			}
+		default:
+			return e.Fset.Position(r.Pos()).String()
+		}
+	}
+	return ""
+}
+
+func (e *Engine) analyseMapDecls() {
+	for key, fn := range e.funcsByKey {
+		for _, b := range fn.Blocks {
+			for _, in := range b.Instrs {
+				fa, ok := in.(*ssa.FieldAddr)
+				if !ok {
+					continue
+				}
+				pt := deref(fa.X.Type())
+				for _, fd := range e.MapDecls {
+					if fd.idx != fa.Field || !types.Identical(pt, fd.named) {
+						continue
+					}
+					if w := e.mapContentWrite(fa); w != "" {
+						fd.Found[key] = append(fd.Found[key], w)
+					}
+				}
+			}
+		}
+	}
+	for _, fd := range e.MapDecls {
+		var ks []string
+		for k := range fd.Found {
+			ks = append(ks, k)
+		}
+		sort.Strings(ks)
+		for _, k := range ks {
+			if !fd.Writers[k] {
+				fd.Violated = append(fd.Violated, fmt.Sprintf("%s changes the entries of %s.%s (or lets the map escape) at %s", k, fd.Struct, fd.Field, fd.Found[k][0]))
+			}
+		}
+	}
+}
+
 func (e *Engine) analyseWriteSets() {
+	e.analyseMapDecls()
 	if len(e.FieldDecls) == 0 {
 		return
 	}
